@@ -218,6 +218,17 @@ def classify (exp got : List String) : String :=
   | "fr" :: _, _ => "prop=C11 reason=frame-content-or-telemetry-differs"
   | _, _ => "prop=C11 reason=output-differs"
 
+def setKv (f : List String) (k v : String) : List String :=
+  f.map fun s => if s.startsWith (k ++ "=") then k ++ "=" ++ v else s
+
+/-- counterfactual configurations of the two start gates (C04): if the real files equal what the model
+produces with a gate forced the other way, the difference is the gate's -/
+def gateVariants (f : List String) : List (String × List String) :=
+  [("window-were-open", setKv f "windowset" "0"),
+   ("window-were-closed", setKv (setKv f "windowset" "1") "window" "0"),
+   ("disk-check-passed", setKv f "disk" "1"),
+   ("disk-check-failed", setKv f "disk" "0")]
+
 def monStep (m : MSt) (bl : Block) : MSt × List String :=
   let (st', _) := step m.st bl
   match bl.op with
@@ -240,7 +251,10 @@ def monStep (m : MSt) (bl : Block) : MSt × List String :=
       -- length (min-secs + preview-secs) the daemon hands to the throttle: a difference is C05's as well
       let thr := if kvN m.st.f "throttle" == 1 && !c.startsWith "prop=C14"
         then ["prop=C05 reason=throttled-recordings-differ-from-bucket-and-minimum-length-formulas"] else []
-      (m', c :: thr)
+      let c04 := (gateVariants m.st.f).filterMap fun (nm, f') =>
+        if f' != m.st.f && (finish { m.st with f := f' }).map fields == got
+        then some s!"prop=C04 reason=recordings-are-those-expected-if-{nm}" else none
+      (m', c :: thr ++ c04)
   | ["n"] =>
     let exp := ((runConn m.st.f m.st.bytes m.st.reqOffsets).lines).map fields
     if exp == bl.outs then ({ m with st := st' }, [])
